@@ -22,6 +22,9 @@ type Env struct {
 	Name   string
 	Schema *Schema
 	Err    error // derivation failed: the type is not usable (Encode/Decode are expected to fail)
+	// SOM: the universe is a SerializableOrderedMap instantiation (som.go); KeyS/ValS: its key and value schemas
+	SOM        somBox
+	KeyS, ValS *Schema
 }
 
 func (e *Env) Opts(validation bool) []serix.Option {
@@ -159,8 +162,66 @@ func GenEnv(rng *hx.Rng, maxDepth int) *Env {
 		ts := ps.ts()
 		e.TopTS = &ts
 	}
+	if rng.Chance(1, 3) {
+		// settings priority: the per-call option over whatever is registered for the top type
+		ts := g.optionOverride(t, ps.ts())
+		e.TopTS = &ts
+	}
 
 	return e.Finish()
+}
+
+// optionOverride builds per-call settings (serix.WithTypeSettings) that compete with the settings
+// registered for the top-level type: explicit values — including the "off" ones: lexicalOrdering
+// false, zero bounds, empty array rules — must win over registered ones, unset ones fall through.
+// The type is first registered with rich settings if it has none yet.
+func (g *tgen) optionOverride(t reflect.Type, ts serix.TypeSettings) serix.TypeSettings {
+	under := t
+	if under.Kind() == reflect.Ptr {
+		under = under.Elem()
+	}
+	isSeq := under.Kind() == reflect.Slice || under.Kind() == reflect.Array || under.Kind() == reflect.Map || under.Kind() == reflect.String
+	if isSeq && !g.registered[under] {
+		reg := serix.TypeSettings{}.WithLengthPrefixType(g.pickLP()).WithLexicalOrdering(g.rng.Chance(3, 4))
+		mode := serializer.ArrayValidationModeNone
+		if g.rng.Chance(3, 4) {
+			mode |= serializer.ArrayValidationModeLexicalOrdering
+		}
+		if g.rng.Chance(1, 3) {
+			mode |= serializer.ArrayValidationModeNoDuplicates
+		}
+		reg = reg.WithArrayRules(&serix.ArrayRules{Min: uint(g.rng.Intn(2)), Max: uint(g.rng.Intn(7)), ValidationMode: mode})
+		g.register(under, reg)
+	}
+	if g.rng.Chance(2, 3) {
+		ts = ts.WithLexicalOrdering(g.rng.Chance(1, 3)) // mostly an explicit false
+	}
+	if g.rng.Chance(1, 3) {
+		ts = ts.WithLengthPrefixType(g.pickLP())
+	}
+	switch g.rng.Intn(6) {
+	case 0:
+		ts = ts.WithArrayRules(&serix.ArrayRules{}) // explicit empty rules switch the registered ones off
+	case 1:
+		ts = ts.WithMinLen(0) // creates rules {Min:0}: replaces the registered rules as a whole
+	case 2:
+		ts = ts.WithMaxLen(uint(g.rng.Intn(4)))
+	case 3:
+		mode := serializer.ArrayValidationModeLexicalOrdering
+		if g.rng.Bool() {
+			mode |= serializer.ArrayValidationModeNoDuplicates
+		}
+		ts = ts.WithArrayRules(&serix.ArrayRules{ValidationMode: mode})
+	}
+	if under.Kind() == reflect.Struct && under != tTime && g.rng.Chance(1, 2) {
+		if g.rng.Bool() {
+			ts = ts.WithObjectType(uint8(g.freshCode() % 256))
+		} else {
+			ts = ts.WithObjectType(g.freshCode())
+		}
+	}
+
+	return ts
 }
 
 func (g *tgen) pickLP() serix.LengthPrefixType {
@@ -242,11 +303,20 @@ func (g *tgen) collectionSettings(t reflect.Type, c ctx, elemCoded bool, bytesLi
 			ts = ts.WithArrayRules(rules)
 		}
 		g.register(t, ts)
-		if c != ctxElem && g.rng.Chance(1, 6) {
-			// additionally override at the position (a tag's bounds replace the registered rules as a whole)
-			ps.lp = &lp
-			if g.rng.Bool() {
+		if c != ctxElem && g.rng.Chance(1, 3) {
+			// additionally override at the position: a tag's prefix wins over the registered one, and a
+			// tag's bounds — also the zero ones, minLen=0 / maxLen=0 — replace the registered rules as a whole
+			if g.rng.Chance(2, 3) {
+				lp2 := g.pickLP()
+				ps.lp = &lp2
+			}
+			switch g.rng.Intn(4) {
+			case 0:
 				ps.max, ps.hasMax = uint(g.rng.Range(1, 6)), true
+			case 1:
+				ps.min, ps.hasMin = 0, true
+			case 2:
+				ps.max, ps.hasMax = 0, true
 			}
 		}
 
